@@ -36,6 +36,9 @@ type UnionNest struct {
 }
 
 type C06Case struct {
+	// Scale: table t is expanded to 200-700 rows by this recipe (first column spread over many values) before anything
+	// is computed: de-duplication in blocks / batches must keep exactly the first occurrences
+	Scale    *Scale         `json:"scale,omitempty"`
 	Nest     *UnionNest     `json:"nest,omitempty"`
 	Doc      map[string]any `json:"doc"`
 	Env      Envelope       `json:"env,omitempty"` // irrelevant options / table representation / repeated execution
@@ -70,7 +73,7 @@ func init() {
 	Register(&Prop{
 		ID:    "C06",
 		Title: "DISTINCT removes exactly the duplicates; UNION [ALL] concatenates [and dedups]",
-		Rule: "rapid draws tables with heavy duplication (value pools of 2-3 per column), select lists of columns and simple expressions, and " +
+		Rule: "rapid draws tables with heavy duplication (value pools of 2-3 per column; about 3% of the DISTINCT / UNION cases expand table t to 200-700 rows by a recipe, its first column spread over 2-400 values), select lists of columns and simple expressions, and " +
 			"either SELECT DISTINCT (oracle: reference first-occurrence sequence; also SELECT DISTINCT * over heterogeneous rows whose key sets differ at equal width, and SELECT DISTINCT over a grouped aggregate-only select list) or a union chain of 2-4 branches (a fifth of the later branches rename their output columns) " +
 			"with any mix of UNION / UNION ALL (a quarter of the chains of 3+ branches put two neighbouring branches in parentheses as a union of their own, mostly with a LIMIT / OFFSET of its own - a cutting window over a de-duplicated pair admits any subset of that size, all of them are tried; a fifth of the branches parenthesised with a LIMIT / OFFSET of their own; two fifths of the chains made of aggregate branches, whole or grouped, with the same textual aggregates) and an optional trailing LIMIT, half of them with an OFFSET in either spelling; SELECT DISTINCT without ORDER BY also under LIMIT / OFFSET (exact window of the first-occurrence sequence) (oracle: left-associative reference; pure UNION ALL chains compared " +
 			"as sequence, others as multiset with the reference's multiplicities; LIMIT n OFFSET m: length of the window [m, m+n) of the combined result, exact window for pure UNION ALL " +
@@ -214,6 +217,21 @@ func genC06(t *rapid.T) any {
 		c.Items = nil
 		c.SQL = "SELECT DISTINCT * FROM h"
 		return c
+	}
+	if len(rows) > 0 && kinds[0] != "bool" {
+		if sc := genScale(t, 12, "scale"); sc != nil {
+			var pool []any
+			nk := rapid.SampledFrom([]int{2, 31, 33, 100, 400}).Draw(t, "scale.keys")
+			for j := 0; j < nk; j++ {
+				if kinds[0] == "int" {
+					pool = append(pool, float64(j))
+				} else {
+					pool = append(pool, fmt.Sprintf("s%d", j))
+				}
+			}
+			sc.genKeys(t, names[0], pool, "scale.key")
+			c.Scale = sc
+		}
 	}
 	if c.Mode == "distinct" {
 		if rapid.IntRange(0, 2).Draw(t, "haswhere") == 0 {
@@ -376,6 +394,13 @@ func dedupRows(rows []any) []any {
 }
 
 func checkC06(c *C06Case) Result {
+	if c.Scale != nil {
+		cc := *c
+		cc.Doc, cc.Scale = c.Scale.ExpandDoc(c.Doc, "t"), nil
+		res := checkC06(&cc)
+		res.Labels = append(res.Labels, "large-table")
+		return res
+	}
 	res := Result{Labels: []string{"mode:" + c.Mode}}
 	env := &sq.Env{Doc: c.Doc}
 	if c.Mode == "distinct-agg" {
